@@ -1,7 +1,7 @@
 from vlib import Job
 
 META = dict(
-    bounds='(1) SleepQueue: every valid heap of n <= 6 (quick) / 10 (thorough) distinct thread objects with symbolic 64-bit deadlines (equal and UINT64_MAX '
+    bounds='(1) SleepQueue: every valid heap of n <= 6 (quick) / 12 (thorough) distinct thread objects with symbolic 64-bit deadlines (equal and UINT64_MAX '
            'included), ONE real push / pop(th) / pop_front / up / down with a symbolic member or new element; vector growth (_M_realloc_insert) for n <= 2 / 3. '
            '(2) two consecutive blocking calls (thread_yield / thread_usleep with a symbolic 64-bit timeout, optionally shutting down) of one thread on a vCPU with one '
            'other runnable thread (+ optionally one unrelated sleeper); while switched out: <= 2 (thorough 3) real thread_interrupt() calls per switch-out (same-vCPU '
@@ -26,10 +26,12 @@ META = dict(
     ],
 )
 
+# The FINDING_* jobs fail on the unchanged tree (suspected defects, reproduced natively: native_repro_stale_interrupt.cpp).  Each carries a kf id: once an entry
+# {id, property: 'C04', assertion_regex, what} is listed in known_findings.json the runner prints KNOWN-FINDING for it instead of VIOLATION.
 SHIM = ['c04_heap.c']
 SWITCH = '_ZN6photon14switch_contextEPNS_6threadES1_'
 UPD = '_ZN6photonL10update_nowEv'
-SCHED_CLANG = ['-mllvm', '-force-attribute=%s:noinline' % SWITCH, '-mllvm', '-force-attribute=%s:noinline' % UPD]
+SCHED_CLANG = ['-fno-access-control', '-mllvm', '-force-attribute=%s:noinline' % SWITCH, '-mllvm', '-force-attribute=%s:noinline' % UPD]
 SCHED_IR2C = ['--asm', 'rdtsc=verif_rdtsc', '--map', '^@%s$=verif_update_now' % UPD, '--map', '^@%s$=verif_switch' % SWITCH]
 POP = 'f__ZN6photon10SleepQueue3popEPNS_6threadE'
 POPF = 'f__ZN6photon10SleepQueue9pop_frontEv'
@@ -42,9 +44,9 @@ def heap_uw(depth_bound):
     return ['%s.0:%d' % (POP, depth_bound), '%s.1:%d' % (POP, depth_bound), '%s.0:%d' % (POPF, depth_bound), '%s.0:%d' % (PUSH, depth_bound)]
 
 
-def sched(name, entry, defines, unwind, unwindset, desc, bounds, timeout, mem_gb=5):
+def sched(name, entry, defines, unwind, unwindset, desc, bounds, timeout, mem_gb=5, kf=None):
     return Job(name, 'C04/h_sched.cpp', entry, defines=defines, unwind=unwind, unwindset=unwindset, shims=SHIM, clang=SCHED_CLANG, ir2c=SCHED_IR2C,
-               timeout=timeout, mem_gb=mem_gb, desc=desc, bounds=bounds)
+               timeout=timeout, mem_gb=mem_gb, desc=desc, bounds=bounds, kf=kf)
 
 
 def jobs(tier):
@@ -52,11 +54,11 @@ def jobs(tier):
     TO = 900 if q else 6000
     J = []
     # ---- (1) SleepQueue, one inductive step per operation
-    n = 6 if q else 10
+    n = 6 if q else 12
     names = ['push', 'pop', 'pop_front', 'up', 'down']
     for op in range(5):
         J.append(Job('sleepq_%s_n%d' % (names[op], n), 'C04/h_sleepq.cpp', 'harness_sleepq', defines=['NMAX=%d' % n, 'OP=%d' % op], unwind=n + 3, shims=SHIM,
-                     timeout=TO, mem_gb=4 if q else 12, desc='SleepQueue::%s from every valid heap of <= %d threads: invariant, membership, idx == -1, front() minimal' % (names[op], n),
+                     timeout=TO, mem_gb=4 if q else 10, desc='SleepQueue::%s from every valid heap of <= %d threads: invariant, membership, idx == -1, front() minimal' % (names[op], n),
                      bounds='<= %d members before the step, 64-bit symbolic deadlines, symbolic member / new element' % n))
     nr = 2 if q else 3
     J.append(Job('sleepq_push_grow_n%d' % nr, 'C04/h_sleepq.cpp', 'harness_sleepq', defines=['NMAX=%d' % nr, 'OP=0', 'NORESERVE'], unwind=nr + 3,
@@ -69,7 +71,7 @@ def jobs(tier):
     J.append(Job('timeout_compare', 'C04/h_timeout.cpp', 'harness_timeout_cmp', unwind=3, shims=SHIM, timeout=TO, mem_gb=2,
                  desc='Timeout operators <, >, >=, == agree with the order of expirations', bounds='64-bit symbolic expirations'))
     J.append(Job('FINDING_timeout_operator_le', 'C04/h_timeout.cpp', 'harness_timeout_cmp', defines=['WITH_LE'], unwind=3, shims=SHIM, timeout=TO, mem_gb=2,
-                 desc='Timeout::operator<= is implemented with "<": false for equal deadlines (suspected defect, common/timeout.h:59)', bounds='64-bit symbolic expirations'))
+                 desc='Timeout::operator<= is implemented with "<": false for equal deadlines (suspected defect, common/timeout.h:59)', bounds='64-bit symbolic expirations', kf='C04-timeout-operator-le'))
     # ---- (4) resume_threads, idler
     nt = 3 if q else 4
     d = nt.bit_length()
@@ -80,9 +82,10 @@ def jobs(tier):
     # ---- (2) sequences of two blocking calls with interrupts in between
     suw = heap_uw(2) + ['%s.2:3' % RES, '%s.6:3' % RES]
     nev = 2 if q else 3
-    def seq(name, defs, desc, bounds='2 blocking calls, <= %d interrupts per switch-out' % nev, mem=6):
-        return sched(name, 'harness_seq', ['H_SEQ', 'NEV=%d' % nev] + defs, 4, suw, desc, bounds, TO, mem if q else 3 * mem)
+    def seq(name, defs, desc, bounds='2 blocking calls, <= %d interrupts per switch-out' % nev, mem=6, kf=None):
+        return sched(name, 'harness_seq', ['H_SEQ', 'NEV=%d' % nev] + defs, 4, suw, desc, bounds, TO, mem if q else 2 * mem, kf=kf)
     J.append(seq('seq_sleep_sleep', ['SCN=2', 'REAL1'], 'sleep (not yet expired), then sleep: 0 only after the deadline; -1 only with the errno of an interrupt issued during that very sleep'))
+    J.append(seq('seq_sleep_sleep_waitq', ['SCN=2', 'REAL1', 'WAITQ'], 'same through the internal thread_usleep(timeout, waitq) used by mutex / cv / semaphore: every wake-up also unlinks the wait queue'))
     J.append(seq('seq_sleep_yield', ['SCN=5', 'REAL1'], 'sleep, then yield: the yield reports only an interrupt issued during it'))
     J.append(seq('seq_yield_yield', ['SCN=3'], 'yield, then yield'))
     J.append(seq('seq_sleep_sleep_shutdown', ['SCN=2', 'REAL1', 'SHUTDOWN'], 'same with a symbolic shutting_down flag: -1/EPERM after min(t, 10ms) unless interrupted', mem=8))
@@ -90,10 +93,10 @@ def jobs(tier):
         J.append(seq('seq_sleep_sleep_sleeper', ['SCN=2', 'REAL1', 'WITH_SLEEPER'], 'sleep, sleep with an unrelated sleeper in the heap that may be woken in between', mem=10))
     J.append(seq('FINDING_interrupt_in_yield_leaks_into_next_sleep', ['SCN=1'],
                  'yield, then sleep: an interrupt that arrives during thread_yield() is returned by it but stays stored in error_number; the next, unrelated thread_usleep '
-                 'that times out normally returns -1 with the stale errno (suspected defect, thread.cpp thread_yield / thread_interrupt READY branch)'))
+                 'that times out normally returns -1 with the stale errno (suspected defect, thread.cpp thread_yield / thread_interrupt READY branch)', kf='C04-stale-interrupt-yield'))
     J.append(seq('FINDING_interrupt_before_first_run_fails_later_sleep', ['SCN=4'],
-                 'a READY thread that has not run yet is interrupted: the reason is stored and its first thread_usleep, although it sleeps the full time, returns -1'))
+                 'a READY thread that has not run yet is interrupted: the reason is stored and its first thread_usleep, although it sleeps the full time, returns -1', kf='C04-stale-interrupt-newthread'))
     if not q:
         J.append(seq('FINDING_interrupt_in_expired_sleep_leaks_into_next_sleep', ['SCN=2'],
-                     'sleep with an already expired timeout (= yield), then sleep: same stale-errno leak through thread_usleep(0)'))
+                     'sleep with an already expired timeout (= yield), then sleep: same stale-errno leak through thread_usleep(0)', kf='C04-stale-interrupt-expired-sleep'))
     return J
